@@ -92,7 +92,7 @@ theorem designMatrices_factor (T : Parser.Table) (ops : Resolver.OpTable) (actio
       NA.naStep actions naAction (usedCols e env.frame) env.frame = .ok b.frame ∧
       predictors m.common m.group (atomTable e) { env with frame := b.frame } = .ok (b.common, b.group) ∧
       responsePart { env with frame := b.frame } (atomTable e) m.resp = .ok b.response := by
-  unfold designMatrices at h
+  unfold designMatrices designMatricesWith at h
   simp only [bind, Except.bind, pure, Except.pure] at h
   repeat' split at h
   all_goals try (cases h; done)
